@@ -90,6 +90,13 @@ CHECKS = {
              "(constraint, well-typed expression, placement) cases, TLC checks structural invariants of the operators and prints the cases; the harness builds schema + two-file "
              "document, and TraceExpr compares the real CollectReferenceOrigins (file, exact range, address, order, no duplicates) with OriginsP using the renderer's extents.",
         ref="DESIGN.md 5/C10", technique="TLC model checking of ExprRules.tla (MC_Expr) + replay of TLC-generated cases + TLC trace validation (TraceExpr)"),
+    "C11": dict(
+        text="Refs.tla: one relation Resolve(o,t) (P) and transcriptions of Target.Matches, the deep walk, InnermostAtPos and Origins.Match (M); MC_Refs checks ImplIsSpec and "
+             "InverseAtDef on all small worlds of nested targets x origins, and that the stricter reading is violated. The worlds are stored in a real PathContext and the real "
+             "Decoder lookups are asked; together with every origin of five real worlds (3-path workspace with path / implied / direct origins, same directory with another language "
+             "id, unreadable path) the raw answers are validated by TraceSession!LookupViol: inverse at definitions, resolution in the declared target path, block-local names stay "
+             "in their block.",
+        ref="DESIGN.md 5/C11", technique="TLC model checking of Refs.tla (MC_Refs) + replay of TLC-generated worlds + TLC trace validation of real lookup answers"),
 }
 
 NOT_YET = {
